@@ -71,7 +71,9 @@ TraceNext ==
     /\ l <= Len(Trace)
     /\ l' = l + 1
     /\ (Tag(Trace[l]) \in Known => PrintT(<<"KNOWN-FINDING-SEEN", Tag(Trace[l]), l>>))
-    /\ errs' = IF Tag(Trace[l]) # "" /\ Len(errs) < 40 THEN Append(errs, <<l, Tag(Trace[l])>>) ELSE errs
+    \* listed findings are reported above, never stored: they must not crowd out other tags
+    /\ errs' = IF Tag(Trace[l]) # "" /\ Tag(Trace[l]) \notin Known /\ Len(errs) < 400
+               THEN Append(errs, <<l, Tag(Trace[l])>>) ELSE errs
 
 Tagged(t) == \E i \in 1..Len(errs) : errs[i][2] = t
 C11_C13_OffChainNeverChangesBlocks == ~Tagged("C11C13")
